@@ -5,6 +5,7 @@
 #include <stdlib.h>
 #include <string.h>
 #include <stdint.h>
+#include <ogg/ogg.h>
 
 static int vc_hexval(int c){ return c<='9'?c-'0':(c|32)-'a'+10; }
 /* returns malloc'd buffer (len+1 bytes, NUL terminated), sets *len; "-" is empty */
@@ -40,4 +41,58 @@ static const char *vc_errname(long c){
   case -137: return "OV_EBADLINK"; case -138: return "OV_ENOSEEK"; default: return "OTHER";
   }
 }
+
+/* growable byte buffer */
+typedef struct { unsigned char *b; long n, cap; } vbuf;
+static void vbuf_add(vbuf *v,const void *p,long n){
+  if(v->n+n>v->cap){ v->cap=(v->n+n)*2+4096; v->b=realloc(v->b,v->cap); }
+  memcpy(v->b+v->n,p,n); v->n+=n;
+}
+
+/* in-memory data source for ov_open_callbacks, with a short-read schedule and
+   fault injection (used by the vorbisfile harnesses) */
+typedef struct {
+  const unsigned char *b; long n, pos;
+  int seekable;
+  long maxread;          /* >0: never return more than this per call */
+  long calls_read, calls_seek, calls_tell, closes;
+  /* fault: at call index fault_at (counted over all three callbacks from 1) */
+  long fault_at; int fault_kind; int fault_persist; long ncalls;
+} memsrc;
+enum { F_NONE=0, F_READ_ERR, F_READ_ZERO, F_READ_ONE, F_SEEK_FAIL, F_TELL_FAIL };
+#include <errno.h>
+static int ms_faulty(memsrc *m){
+  if(!m->fault_kind||!m->fault_at)return 0;
+  if(m->fault_persist)return m->ncalls>=m->fault_at;
+  return m->ncalls==m->fault_at;
+}
+static size_t ms_read(void *ptr,size_t size,size_t nmemb,void *ds){
+  memsrc *m=ds; long want=(long)(size*nmemb), left=m->n-m->pos;
+  m->calls_read++; m->ncalls++;
+  if(ms_faulty(m)){
+    if(m->fault_kind==F_READ_ERR){ errno=EIO; return 0; }
+    if(m->fault_kind==F_READ_ZERO){ errno=0; return 0; }
+    if(m->fault_kind==F_READ_ONE){ if(want>1)want=1; }
+  }
+  errno=0;
+  if(m->maxread>0&&want>m->maxread)want=m->maxread;
+  if(want>left)want=left;
+  if(want<=0)return 0;
+  memcpy(ptr,m->b+m->pos,want); m->pos+=want; return (size_t)want;
+}
+static int ms_seek(void *ds,ogg_int64_t off,int whence){
+  memsrc *m=ds; long np;
+  if(!m->seekable)return -1;
+  m->calls_seek++; m->ncalls++;
+  if(ms_faulty(m)&&m->fault_kind==F_SEEK_FAIL)return -1;
+  np=(whence==SEEK_SET)?off:(whence==SEEK_CUR)?m->pos+off:m->n+off;
+  if(np<0||np>m->n)return -1;
+  m->pos=np; return 0;
+}
+static long ms_tell(void *ds){
+  memsrc *m=ds; m->calls_tell++; m->ncalls++;
+  if(ms_faulty(m)&&m->fault_kind==F_TELL_FAIL)return -1;
+  return m->pos;
+}
+static int ms_close(void *ds){ memsrc *m=ds; m->closes++; return 0; }
 #endif
